@@ -2,6 +2,7 @@ package ast
 
 import (
 	"fmt"
+	"reflect"
 
 	"github.com/google/go-cmp/cmp"
 	"github.com/grafana/cog/internal/tools"
@@ -810,7 +811,8 @@ func (t EnumType) MemberForValue(value any) (EnumValue, bool) {
 	}
 
 	equal := func(a, b any) bool {
-		return a == b
+		// not `a == b`: comparing two slices or maps held in an `any` panics
+		return reflect.DeepEqual(a, b)
 	}
 	if t.Values[0].Type.Scalar.ScalarKind != KindString {
 		equal = func(a, b any) bool {
